@@ -38,7 +38,7 @@ class Prop(common.PropertyCheck):
         for _ in range(self.budget(260, 4000)):
             yield {'N': rng.choice([1, 2, 3, 7, 40, 400]), 'D': rng.randrange(2, 7), 'data': rng.choice(['ties', 'const', 'spread', 'spread', 'modal', 'bright']),
                    'cont': rng.choice(['array_int', 'array_float', 'array_narrow', 'sample', 'sample', 'sample_rfi', 'sample_mef', 'sample_reordered']),
-                   'chform': rng.choice(['none', 'pos', 'name', 'list', 'list1', 'perm', 'perm', 'zigzag']), 'seed': rng.randrange(1 << 30)}
+                   'chform': rng.choice(['none', 'pos', 'pos0', 'name', 'name_alias', 'list', 'list1', 'perm', 'perm', 'zigzag']), 'seed': rng.randrange(1 << 30)}
 
     def build(self, case):
         r = np.random.RandomState(case['seed'] % (1 << 31))
@@ -69,7 +69,9 @@ class Prop(common.PropertyCheck):
         else:
             spec = {'version': 'FCS3.0', 'delim': '/', 'datatype': 'I', 'byteord': '1,2,3,4', 'widths': [16] * D, 'ranges': [top] * D,
                     'events': [[int(min(v, top - 1)) for v in row] for row in ev], 'names': ['FSC-H', 'FL1-H', 'FL2-H', 'FL3-H', 'FL4-H', 'Time'][:D],
-                    'pne': {str(i + 1): ('4,1' if i % 2 else '0,0') for i in range(D)}}
+                    'pne': {str(i + 1): ('4,1' if i % 2 else '0,0') for i in range(D)},
+                    # channel labels ($PnS): the first channel is labelled with the NAME of the last one, the second with its own name
+                    'extra': [['$P1S', ['FSC-H', 'FL1-H', 'FL2-H', 'FL3-H', 'FL4-H', 'Time'][D - 1]], ['$P2S', 'FL1-H']]}
             d, _ = samples.load(spec, name='c12.fcs')
             names = list(d.channels)
             if cont == 'sample_reordered':
@@ -92,6 +94,11 @@ class Prop(common.PropertyCheck):
             ch, cols = None, list(range(D))
         elif chf == 'pos':
             ch, cols = 1, [1]
+        elif chf == 'pos0':
+            ch, cols = 0, [0]
+        elif chf == 'name_alias':
+            # the name of the last channel (which is also the $PnS label of the first one in these files)
+            ch, cols = (names[D - 1] if names else D - 1), [D - 1]
         elif chf == 'name':
             ch, cols = (names[1] if names else 1), [1]
         elif chf == 'list':
@@ -108,7 +115,7 @@ class Prop(common.PropertyCheck):
             ch = [names[c] if (names and rr.random() < 0.6) else c for c in cols]
         else:
             ch, cols = [names[0] if names else 0], [0]
-        scalar = chf in ('pos', 'name')
+        scalar = chf in ('pos', 'pos0', 'name', 'name_alias')
         out = {'cols': [[bits(v) for v in plain[:, c]] for c in cols], 'res': {}, 'plain': {}, 'shape_ok': {}, 'scalar': scalar}
         for st in STATS:
             f = getattr(FlowCal.stats, st)
